@@ -24,7 +24,7 @@ import QV.Spec.NameText
     lhash <l>                octets fed to the hasher by a Label -> ok <hex> | err
     nb <script>              NameBuilder script, `;`-separated steps: p<hh> try_push, s<hex>
                              try_push_slice, n next_label, q is_fully_qualified, f finish,
-                             x<wire> finish_with_suffix -> `;`-joined step results
+                             x<wire> finish_with_suffix -> `ok ` + `;`-joined step results
 -/
 
 namespace QV.Driver
@@ -273,7 +273,8 @@ def nameHandler : Handler := fun op args =>
   | "nb", [script] =>
     let steps := script.splitOn ";"
     match runScriptM Builder.new [] steps, runScriptS ⟨[], []⟩ [] steps with
-    | some m, some s => some (";".intercalate m, ";".intercalate s)
+    | some m, some s =>
+      some (if m = ["panic"] then "panic" else "ok " ++ ";".intercalate m, "ok " ++ ";".intercalate s)
     | _, _ => some bad
   | _, _ => none
 
